@@ -41,6 +41,20 @@ ENGINE = {
  "C20": "results of every memoised call, the underlying function's invocation log, bind runs, invalidations, reads and the full state dump (scope of every node) on histories that call memoised functions from top level and from (nested) bind closures, drop the returned handles, re-run the binds and stabilise, plus a scripted family where weak_memoize_fn itself is called inside a bind closure; oracle: a key whose node is still allocated returns that node without invoking the function, a freed key invokes it again, nodes created at top level carry the creation scope, observed values stay valid and equal the reference after bind re-runs",
  "C11": "the full engine state (hook dump) after every single op, model vs crate, plus the audit (edges symmetric with matching indices, heights, heap = necessary and stale once each, counters, handler counts) evaluated on the crate's dumps",
 }
+# what the theorems of each engine property cover, and what is decided by the correspondence run + oracle only
+SCOPE = {
+ "C03": "Proved for all states/fuel: once a bind's left-hand side changed, recomputing its lhs-change node leaves every node created by the previous run invalid (or freed); invalidity is permanent; an invalid node is never given to its function (recompute panics instead). Not proved: the scheduling half (no node of the old run is recomputed before the lhs-change node ran) — decided by the correspondence on the ordered recompute log plus the oracle",
+ "C06": "Proved: the three built-in cutoffs, (old,new) argument order of function cutoffs, a suppressed result leaves changed_at alone and an unsuppressed one stamps it, staleness = some input stamped since the last run. Not proved: that every stale needed node is actually recomputed in the same stabilise (heap invariant) — correspondence + oracle",
+ "C07": "Proved for all operations other than stabilise (and the expert API's graph surgery): no observer's read moves, new observers read NeverStabilised, reads during stabilise are refused, the status is constant during propagation. The snapshot clause (values = from-scratch evaluation) is C01's",
+ "C08": "Proved: the write machine (immediate outside stabilise, deferred and composed in program order inside, applied at the end), readers see the pre-stabilise value during propagation. Fully covered by theorems",
+ "C09": "Proved: the handler table (which previous/current pair delivers what), Initialised first and at most once, nothing after Invalidated, Changed only when the node changed this stabilise and never lost. Not proved: that the node is queued for its handlers whenever it changed (engine invariant) — correspondence + oracle",
+ "C10": "Proved: the observer lifecycle automaton as a refinement of the engine's observer operations, and the frame (other observers unaffected). Fully covered by theorems",
+ "C12": "Proved about the ownership graph of the model: after a collection nothing unreferenced survives, no live object references a freed one, held objects survive, release does not change reads. The ownership graph itself (which field holds which strong reference) is tied to the crate by comparing Weak::upgrade of every node after every op",
+ "C13": "Proved: any failing stabilise leaves the status non-NotStabilising, a further stabilise refuses, the poison is permanent over any operation sequence, reads after a propagation panic are refused. Dropping everything afterwards without panic is decided by the fault enumeration on the crate",
+ "C14": "Proved: the children vector and the edges' index cells stay consistent through add_dependency and remove_dependency (duplicates and invalid children included), no other engine function writes them, callback delivery on linking (exactly when the node has run and the child has a value), no unwrap on a child without a value. Not proved: the value clause (node = reference combinator after every stabilise) and callback completeness over whole stabilisations — correspondence + oracle",
+ "C19": "Proved: the height limit is exact in set_height (limit in force accepted, limit+1 refused with the diagnostic), new_with_height and set_max_height_allowed give exactly N, reconfiguration below the seen height is refused, nested stabilise panics from closures and from top level, a cycle closed through adjust_heights is reported. Not proved: that adjust_heights computes the true longest-path height (so 'exactly when the graph height exceeds N') — correspondence + oracle",
+ "C20": "Proved: a live key returns the same node with the state untouched, a second call shares the first's node, a dead or new key runs the function in the creation scope and restores the caller's scope, every node a memoised call creates belongs to a scope in which weak_memoize_fn was called (top-level functions create top-level nodes, from whatever scope they are called). The liveness notion (weak upgrade) is the model's collection, tied to the crate by the dump comparison",
+}
 checks = []
 for p in props:
     pid = p["id"]
@@ -53,7 +67,8 @@ for p in props:
         if th:
             cat = "proof"
             text = ("Coq theorems about the engine model E (%s) checked on every run with Print Assumptions, and the model tied to the crate by "
-                    "running the extracted model and the real library on the same generated histories: %s." % (", ".join(th), ENGINE[pid]))
+                    "running the extracted model and the real library on the same generated histories: %s. Scope of the theorems: %s."
+                    % (", ".join(th), ENGINE[pid], SCOPE.get(pid, "see Properties/%s.v" % pid)))
         else:
             cat = "other"
             text = ("Correspondence of the executable Gallina engine model E (extracted to OCaml) with the crate on generated histories: %s. "
